@@ -246,6 +246,27 @@ def pmirror (e : Enc) (layer : Nat → Nat) (bf : Nat) (p : PSt) (toks : List St
         | .err ps' => fin { p with ps := ps', last := "err" }
         | r => fin { p with last := outcomeStr (resOutcome r) }
     | none => p
+  | ["plinks", o, n] =>
+    -- DiffLinks of tree n against tree o: the link events (a name, or `*obj` for a node object), in
+    -- callback order, reported through `last` (the functional model knows names only)
+    match nat o >>= (p.trees[·]?), nat n >>= (p.trees[·]?) with
+    | some to, some tn =>
+      let prog : M (List OEv) := do
+        let st ← oDiffInit (some to.root) tn.root
+        oRun E pfuel 1000000 st
+      match prog p.ps with
+      | .ok evs ps' =>
+        let lk (l : HLink) : String := match l with
+          | .ref k => nameStr p.names k
+          | _ => "*obj"
+        let showEv : OEv → Option String
+          | .addLink l => some ("+" ++ lk l)
+          | .remLink l => some ("-" ++ lk l)
+          | _ => none
+        fin { p with ps := ps', last := "ok:" ++ ",".intercalate (evs.filterMap showEv) }
+      | .err ps' => fin { p with ps := ps', last := "err" }
+      | r => fin { p with last := outcomeStr (resOutcome r) }
+    | _, _ => p
   | ["seek", slot, k] =>
     match nat slot >>= (p.trees[·]?), nat k with
     | some t, some k =>
